@@ -38,6 +38,8 @@ type KnownSpec struct {
 	SigPrefix *string  `json:"sig_all_frames_prefix,omitempty"`
 	Kinds     []string `json:"policy_kinds,omitempty"` // policy kinds the scenario must use
 	BothCtx   bool     `json:"adapter_both_contexts,omitempty"` // adapter scenario with non-background request and executor contexts
+	AdapterPolicy string `json:"adapter_policy_kind,omitempty"` // adapter scenario using this policy kind
+	AdapterBodies []int  `json:"adapter_body_in,omitempty"`     // adapter scenario whose request body kind is one of these
 }
 
 func (k *KnownSpec) matches(v *Violation, sc *Scenario) bool {
@@ -61,6 +63,32 @@ func (k *KnownSpec) matches(v *Violation, sc *Scenario) bool {
 	if k.BothCtx {
 		a := sc.Adapter
 		if a == nil || a.ReqCtx == ACtxBackground || a.ExecCtx == ACtxBackground || a.ExecCtx == ACtxNone {
+			return false
+		}
+	}
+	if k.AdapterPolicy != "" {
+		ok := false
+		if sc.Adapter != nil {
+			for _, p := range sc.Adapter.Policies {
+				if p.Kind == k.AdapterPolicy {
+					ok = true
+				}
+			}
+		}
+		if !ok {
+			return false
+		}
+	}
+	if len(k.AdapterBodies) > 0 {
+		ok := false
+		if sc.Adapter != nil {
+			for _, b := range k.AdapterBodies {
+				if sc.Adapter.Body == b {
+					ok = true
+				}
+			}
+		}
+		if !ok {
 			return false
 		}
 	}
